@@ -241,9 +241,10 @@ def main():
                          "Spec, Proofs, Props, Gen regenerated from source) "
                          "+ python correspondence harness"}],
         'checks': checks,
-        'notes': "fix: commits in /repo (genuine defects repaired): see "
-                 "known_findings.json (status fixed) and DESIGN.md section "
-                 "3.  Known findings (not repaired): D8 (C10), D9 (C09).",
+        'notes': "fix: commits in /repo (genuine defects repaired, D1-D13): "
+                 "see known_findings.json (status fixed; a fixed entry "
+                 "suppresses nothing) and DESIGN.md section 3.  No known "
+                 "finding is left unrepaired.",
         'not_applicable': na}
     with open(os.path.join(V, 'MANIFEST.json'), 'w') as f:
         json.dump(man, f, indent=1)
